@@ -8,10 +8,30 @@ EXTENDS Layout, TLC, Json, IOUtils
 
 Given == JsonDeserialize(IOEnv.GIVEN_FILE)
 
+\* kinds computed leniently (also for illegal environments): a definition's
+\* stiffness only depends on the definitions before it
+SetToSeq(S) == IF S = {} THEN <<>> ELSE
+    LET RECURSIVE F(_)
+        F(T) == IF T = {} THEN <<>> ELSE LET x == CHOOSE x \in T : TRUE IN <<x>> \o F(T \ {x})
+    IN F(S)
+
+Violations(e) ==
+    LET lay == LayAll(e) IN
+    UNION {
+        LET ks == Kinds(SubSeq(lay, 1, i - 1)) IN
+        (IF RefsBack(e, i) THEN {} ELSE {"back-references-only"})
+        \cup (CASE e[i].k = "struct" -> StructViolations(e, ks, e[i].ms)
+                [] e[i].k = "union" -> UnionViolations(ks, e[i].arms)
+                [] e[i].k = "enum" -> IF LegalEnum(e[i].vals) THEN {} ELSE {"enum-non-empty-unique"}
+                [] OTHER -> {})
+        : i \in 1..Len(e)}
+
 Report(i) ==
     LET e == Given[i].env
-        ok == LegalEnv(e)
-    IN [gid |-> i, legal |-> ok, lay |-> IF ok THEN LayAll(e) ELSE <<>>]
+        refs == \A d \in 1..Len(e) : RefsBack(e, d)
+        ok == refs /\ LegalEnv(e)
+    IN [gid |-> i, legal |-> ok, lay |-> IF ok THEN LayAll(e) ELSE <<>>,
+        rules |-> IF ok THEN <<>> ELSE IF refs THEN SetToSeq(Violations(e)) ELSE <<"back-references-only">>]
 
 ASSUME \A i \in 1..Len(Given) : PrintT("LAY " \o ToJson(Report(i)))
 
